@@ -20,7 +20,7 @@ from .. import solvecheck as SC
 from .c10 import random_rel
 
 LEVEL = "exploration"
-BUDGET_S = {"quick": 60, "thorough": 1200}
+BUDGET_S = {"quick": 420, "thorough": 1200}
 N_RANDOM = {"quick": 1200, "thorough": 30000}
 
 _x, _y = ["vec", "x"], ["vec", "y"]
@@ -79,6 +79,16 @@ def shortcut_cases():
     ]:
         out.append((f"near-miss:same-name-views:{nm}", D1, ["sum", v1], [["rel", "<=", ["sum", v2], ["raw", 3.0, "float"], "direct"]]))
         out.append((f"near-miss:same-name-views:{nm}:lc", D1, ["matmul", ["arr", [1.0, 2.0]], v1], [["rel", ">=", ["dot", v2, v2], ["raw", 0.5, "float"], "direct"]]))
+    # reductions over blocks of a symmetric matrix (principal and off-diagonal square blocks, rectangular blocks)
+    G_ = ["mat", "G"]
+    D2 = D1 + [{"k": "mat", "name": "H", "r": 4, "c": 4, "sym": True, "ub": 9.0}]
+    H_ = ["mat", "H"]
+    for nm, blk in [("principal", ["sub", H_, 0, 2, 0, 2]), ("off-diagonal-square", ["sub", H_, 2, 4, 0, 2]), ("off-diagonal-square-upper", ["sub", H_, 0, 2, 2, 4]),
+                    ("overlapping-square", ["sub", H_, 1, 3, 0, 2]), ("rectangular", ["sub", H_, 0, 3, 1, 3]), ("transposed-block", ["T", ["sub", H_, 2, 4, 0, 2]]),
+                    ("whole", H_), ("G-block", ["sub", G_, 1, 3, 0, 2])]:
+        out.append((f"symmetric-block:{nm}:sum", D2, ["msum", blk], []))
+        out.append((f"symmetric-block:{nm}:fro", D2, ["bin", "+", ["fro", blk], ["var", "s"]], []))
+        out.append((f"symmetric-block:{nm}:constraint", D2, ["var", "s"], [["rel", "<=", ["msum", blk], ["raw", 3.0, "float"], "direct"]]))
     out.append(("shortcut:two-views-same-vector", D1, ["sum", ["slice", _x, 0, 4, None]], [["rel", "<=", ["sum", ["slice", _x, 2, 8, None]], ["raw", 1.0, "float"], "direct"]]))
     out.append(("shortcut:constant-objective", D1, ["const", 1.0, "float"], [["rel", "<=", ["sum", _x], ["raw", 1.0, "float"], "direct"]]))
     out.append(("shortcut:parameter-only-objective", D1 + [{"k": "par", "name": "p", "val": 2.0}], ["bin", "*", ["par", "p"], ["sum", _y]], []))
@@ -125,7 +135,7 @@ def info(tier):
         "name order) and random problems (generated objective + 0-3 generated relations); Problem.variables / n_variables / "
         "get_bounds / domains compared with the recipe-level syntactic set, an independent natural sort and the declarations; "
         "distinct = canonical problem hashes" % len(shortcut_cases()),
-        "required_cells": sorted({c for c, _, _, _ in shortcut_cases()}) + ["name-stress", "random", "deep-objective"],
+        "required_cells": sorted({c for c, _, _, _ in shortcut_cases()}) + ["name-stress", "random", "deep-objective", "history"],
         "assumptions": ["'mentioned' = syntactic occurrence in the recipe (x*0 still mentions x)"],
     }
 
@@ -202,7 +212,10 @@ def run(ctx, rec):
     n = 0
     while n < N_RANDOM[ctx.tier] and not rec.out_of_time():
         n += 1
-        r = n % 3
+        r = n % 4
+        if r == 3:
+            run_history(rec, rng)
+            continue
         if r == 0:
             decls, obj, cons = name_stress_case(rng)
             check(rec, "name-stress", decls, obj, cons)
@@ -223,6 +236,63 @@ def run(ctx, rec):
             for t in terms[1:]:
                 obj = ["bin", rng.choice(["+", "-"]), obj, t]
             check(rec, "deep-objective", g.decls, obj, [])
+
+
+def run_history(rec, rng):
+    """The variable list after each edit of ONE problem object (objective replaced by a smaller / larger / disjoint one,
+    constraints added, variables read in between) must be that of the current model."""
+    import optyx
+
+    g = G.Gen(rng, bounds=True, matrices=rng.random() < 0.5)
+    b = SharingBuilder(g.decls)
+    P = optyx.Problem()
+    cur_obj, cur_cons = None, []
+    steps = []
+    for step in range(rng.randint(3, 8)):
+        r = rng.random()
+        try:
+            if r < 0.45 or cur_obj is None:
+                node = g.scalar(rng.randint(0, 2))
+                if node[0] in ("const", "raw"):
+                    node = g.leaf()
+                e = b.S(node)
+                (P.minimize if rng.random() < 0.5 else P.maximize)(e)
+                cur_obj = node
+                steps.append("objective:" + A.render(node)[:60])
+            elif r < 0.7:
+                rel = random_rel_over(rng, g)
+                if rel is None:
+                    continue
+                P.subject_to(b.rel(rel))
+                cur_cons.append(rel)
+                steps.append("subject_to:" + A.render(rel)[:60])
+            else:
+                steps.append("read")
+        except Exception as ex:
+            rec.events["history-build-unsupported:" + type(ex).__name__] += 1
+            return
+        try:
+            want = SC.mentioned({"decls": g.decls, "objective": cur_obj, "constraints": cur_cons})
+        except (R.ShapeError, R.OutOfModel):
+            return
+        try:
+            got = [v.name for v in P.variables]
+            n = P.n_variables
+            gb = P.get_bounds()
+        except Exception as ex:
+            rec.violation("variables-raises-in-history:" + type(ex).__name__, {"steps": steps, "error": repr(ex)[:200], "show": {"steps": steps}})
+            return
+        rec.cmp(1, "history")
+        keys = [R.natural_key(nm) for nm in got]
+        if sorted(got) != sorted(want) or any(keys[i] > keys[i + 1] for i in range(len(keys) - 1)) or n != len(want) or len(gb) != len(want):
+            rec.violation("variables-stale-after-edit", {"steps": steps, "got": got, "want": want, "decls": g.decls, "show": {"decls": A.render_decls(g.decls), "steps": steps}})
+            return
+        info_ = R.Decls(g.decls).var_info()
+        wantb = [(info_[nm][0], info_[nm][1]) if nm in info_ else (0.0, 0.0) for nm in got]
+        if [tuple(None if v is None else float(v) for v in t) for t in gb] != [tuple(None if v is None else float(v) for v in t) for t in wantb]:
+            rec.violation("bounds-stale-after-edit", {"steps": steps, "got": [list(t) for t in gb], "want": wantb, "show": {"steps": steps}})
+            return
+    rec.case({"history": steps, "d": g.decls})
 
 
 def random_rel_over(rng, g):
